@@ -642,12 +642,12 @@ mod verif_c16 {
 
   /// Cross-check through the REAL bus ladder (no bus stubs; natively replayable):
   /// a transfer from work RAM / ROM / echo area lands in OAM and nowhere else.
-  fn ladder(page: u8, max_bytes: usize) {
+  fn ladder(page: u8, max_bytes: usize, o_lo: u8, o_hi: u8) {
     let h = Header::verif_with(0, 0, 0);
     let mut m = verif_areas(&h);
     let p = &mut m as *mut MemoryAreas;
     let o: u8 = kani::any();
-    kani::assume(o < 0xa0);
+    kani::assume(o < 0xa0 && o >= o_lo && o <= o_hi);
     let nb: usize = kani::any();
     kani::assume(nb <= max_bytes);
     // arbitrary source bytes (where the source is writable memory) and an arbitrary OAM/other probe
@@ -678,18 +678,21 @@ mod verif_c16 {
     core::mem::forget(m);
   }
   macro_rules! lad {
-    ($name:ident, $page:expr, $unwind:expr) => {
+    ($name:ident, $page:expr, $unwind:expr, $lo:expr, $hi:expr) => {
       #[kani::proof]
       #[kani::unwind($unwind)]
       #[kani::stub(crate::system::get_rom_buffer, vstub::stub_get_rom_buffer)]
       #[kani::stub(crate::mem::create_buffer, vstub::stub_create_buffer)]
       #[kani::stub(crate::devices::video::lcd::LCD::new, vstub::stub_lcd_new)]
       #[kani::stub(crate::devices::io::IO::run_clock_cycles, io_noop)]
-      fn $name() { ladder($page, 2); }
+      fn $name() { ladder($page, 2, $lo, $hi); }
     };
   }
+  // offsets 0..=3 only: a fully symbolic offset unrolls 160 copies through the real ladder under a symbolic guard and
+  // did not finish in 2 h; the last four offsets (0x9c..=0x9f, unwind 164) did not finish in 29 min / 13 GB either.
+  // Later offsets and completion of the transfer are decided by the recording-bus harnesses above.
   #[cfg(verif_thorough)]
-  lad!(c16_ladder_wram, 0xc1, 164);
+  lad!(c16_ladder_wram_start, 0xc1, 10, 0, 3);
 
   #[kani::proof]
   #[kani::unwind(10)]
